@@ -133,9 +133,6 @@ def main():
         r = results[i]
         evaluations += r["evaluations"]
         distinct.update(r["distinct"])
-        for s in r["samples"]:
-            if len(samples) < 6:
-                samples.append(s)
         for k, v in r["counters"].items():
             counters[k] = counters.get(k, 0) + v
         for sig, v in r["violations"].items():
@@ -147,6 +144,14 @@ def main():
         for k, v in r["requirements"].items():
             reqs[k] = max(reqs.get(k, 0), v)
         notes.update(r["notes"])
+    # samples: round-robin over shards so that they show different kinds of cases
+    depth = 0
+    while len(samples) < 6 and depth < 4:
+        for i in sorted(results):
+            ss = results[i]["samples"]
+            if depth < len(ss) and len(samples) < 6 and ss[depth] not in samples:
+                samples.append(ss[depth])
+        depth += 1
     for k, minimum in sorted(reqs.items()):
         if counters.get(k, 0) < minimum:
             inconcl.append("monitor counter %s=%d below the minimum %d needed for a verdict"
